@@ -73,6 +73,11 @@ add('C09', 'break', M, 'u[0] * v[1] + u[1] * v[0] + u[2] * v[3] - u[3] * v[2]', 
 add('C09', 'break', M, 'r = r + 2 * s * jp.cross(u, vec)', 'r = r + s * jp.cross(u, vec)', 'rotate coefficient')
 add('C09', 'break', B, 'vel = math.rotate(m.vel - jp.cross(self.pos, m.ang), rot_t)', 'vel = math.rotate(m.vel, rot_t)', 'cross term dropped')
 add('C09', 'break', B, 'ang = math.rotate(f.ang, self.rot) + jp.cross(self.pos, vel)', 'ang = math.rotate(f.ang, self.rot) - jp.cross(self.pos, vel)', 'force transform sign')
+add('C09', 'break', M, 'xyz = jp.cross(v1, v2)\n  w = 1.0', 'xyz = jp.cross(v2, v1)\n  w = 1.0', 'from_to generic axis reversed')
+add('C09', 'break', M, 'v1_o = rnd - jp.dot(rnd, v1) * v1', 'v1_o = rnd', 'from_to fallback axis not orthogonal to v1')
+add('C09', 'break', M, 'rnd = jax.random.uniform(jax.random.PRNGKey(0), (3,))', 'rnd = jp.array([1.0, 0.0, 0.0])', 'from_to fallback reference is a lattice direction')
+add('C09', 'benign', M, 'rnd = jax.random.uniform(jax.random.PRNGKey(0), (3,))', 'rnd = jax.random.uniform(jax.random.PRNGKey(7), (3,))', 'from_to another generic reference')
+add('C09', 'benign', M, 'w = 1.0 + jp.dot(v1, v2)', 'w = jp.dot(v2, v1) + 1.0', 'from_to commuted')
 add('C09', 'benign', M, 'u[0] * v[0] - u[1] * v[1] - u[2] * v[2] - u[3] * v[3]', 'v[0] * u[0] - (v[1] * u[1] + u[2] * v[2]) - u[3] * v[3]', 'commuted / re-associated')
 # ---------------------------------------------------------------- C10
 add('C10', 'break', 'brax/contact.py', 'xquat = x.rot[sys.geom_bodyid - 1]', 'xquat = x.rot[sys.geom_bodyid]', 'pos and rot gathered with different indices')
